@@ -282,6 +282,18 @@ PROPS["C11"] = dict(
     jobs=[job("histories", "^TestHistories$", (4, 16), (400, 4000), (900, 3000)),
           job("map-orders", "^TestMapOrders$", (2, 16), (500, 6000), (900, 3000), pkg="c11m")],
 )
+PROPS["C12"] = dict(
+    pkg="c12", level="exploration", replay_race=True,
+    technique="randomised concurrent plans under the Go race detector with a sequential oracle: plans are drawn by rapid before any goroutine starts, every call's canonical result is compared with the single-threaded result, race reports are attributed to the plan that produced them",
+    level_text=("Exploration of the interleavings that the Go scheduler, 2..32 goroutines, GOMAXPROCS 2/4/16 and injected yields produce: goroutines run random mixes of Check / Validate (own document) / Len / "
+                "Example / GetAST / UsedUserTypes against 1-3 shared schemas (pre-compiled or racing on first use) and against private schemas, in half of the plans built from the same user-type objects. "
+                "Built with -race: any data race report fails the plan; every result must equal the sequential result. The harness does not own the scheduler - this is exploration amplified by "
+                "happens-before race detection, nothing more."),
+    level_note="trusted: Go race detector (reports only real races); 'compiled exactly once' is observed through equal results, not counted; plans do not share type objects that use allOf (recorded finding, avoided by construction and counted)",
+    rule=("plans: G in {2,4,8,16,32} goroutines x 5-15/40 calls; non-trivial = >=2 goroutines with a shared first use or a shared Example call; distinct by plan"),
+    assumptions=["a failed plan is replayed 20 times by --replay; a race report is conclusive by itself"],
+    jobs=[job("plans", "^TestConcurrentSharing$", (2, 16), (100, 1200), (1200, 3000), race=True, race_attributed=True)],
+)
 
 _UNBUILT = "check under construction in this session (see DESIGN.md section 5 for the planned design)"
 NOT_APPLICABLE = [dict(property_id="C%02d" % i, reason=_UNBUILT) for i in range(1, 20) if "C%02d" % i not in PROPS]
